@@ -9,7 +9,7 @@ import copy
 
 import numpy as np
 
-from .. import codec
+from .. import codec, seams
 from ..outcome import capture, outcomes_agree, bytes_equal, values_close
 from ..profile import Profile, agg_add, gen_record, gen_size, gen_periods, gen_freqs
 from . import c04 as c04mod
@@ -192,7 +192,9 @@ class World(object):
         self.snap_o = {}
         self.origin = {}        # object name -> (source kind, route, source buffer or None)
         self.stats = {"steps": 0, "ops": {}, "faults": {"K1": {"armed": 0, "fired": 0, "recovered": 0},
+                                                      "K2": {"armed": 0, "fired": 0, "recovered": 0},
                                                       "K4": {"armed": 0, "fired": 0, "recovered": 0}},
+                      "k2_sites": {},
                       "own_cells": set(), "pure_cells": set(), "calls": {}, "call_outcomes": {}, "kindseq": set(),
                       "nontrivial": 0, "outcomes": {}, "runs": 0, "buffer_checks": 0, "object_checks": 0,
                       "repeat_checks": 0, "later_repeat_checks": 0, "run_class": {}}
@@ -211,6 +213,7 @@ def _copy_buf(b):
 
 class C05(Profile):
     prop = "C05"
+    n_sweep = N_SWEEP
     SIGNATURE_KEYS = ("invariant", "cls", "after", "victim_kind", "fault")
     ASSUMPTIONS = ["declared write sets: an analysis call writes nothing; a mutator writes only its own object; "
                    "a cluster operation writes only its members; a caller write touches only that buffer (and its base)",
@@ -219,6 +222,8 @@ class C05(Profile):
     def setup(self):
         from ..env import load_eqsig
         self.eqsig = load_eqsig()
+        if not getattr(self, "no_seams", False):
+            seams.install_backend_seams(all_modules=True)
 
     # ------------------------------------------------------------------------------------------
     def make_config(self, rng, tier, index):
@@ -242,12 +247,15 @@ class C05(Profile):
             "faults_on": rng.random() < 0.6,
             "k1_rate": rng.choice([0.0, 0.1, 0.2]),
             "k2_rate": 0.0,
+            "k2_blind": rng.choice([0.0, 0.1, 0.2]),
             "p_call": {"ownership": 0.1, "purity": 0.7, "mixed": 0.4}[["ownership", "purity", "mixed"][rc]],
             "cluster": rng.random() < 0.3,
             "mut_off": [],
             "call_index": index // 3,
         }
         cfg["max_steps"] = cfg["length"] + 10
+        if cfg["faults_on"] and cfg["k2_blind"] > 0:
+            cfg["run_class"] += "+k2"
         return cfg
 
     def new_world(self, config):
@@ -278,6 +286,8 @@ class C05(Profile):
                 return world.objs[x["vals"]].values
             if "obj" in x:
                 return world.objs[x["obj"]]
+            if "raw" in x:
+                return x["raw"]
             if "arr" in x:
                 a = codec.dec(x["arr"])
                 if eph is not None:
@@ -300,7 +310,7 @@ class C05(Profile):
                 return x["vals"] in world.objs
             if "obj" in x:
                 return x["obj"] in world.objs
-            if "arr" in x or "nd" in x:
+            if "arr" in x or "nd" in x or "raw" in x:
                 return True
             return all(self._refs_exist(world, v) for v in x.values())
         if isinstance(x, list):
@@ -508,14 +518,27 @@ class C05(Profile):
         eph = []
         eph_snap = None
         out = None
+        fault = op.get("fault")
+        arm = fault["site"] if (fault and fault.get("k") == "K2") else None
+        fired = None
         if op["op"] == "call":
             # resolve once to snapshot the ephemeral (inline) arrays, then call with the same objects
-            out, viol = self._apply_call(world, op, step, kind)
+            out, viol, fired = self._apply_call(world, op, step, kind, arm)
             if viol:
                 return out.digest(), viol
         else:
-            out = capture(self._exec, world, op)
+            seams.begin_op(arm)
+            try:
+                out = capture(self._exec, world, op)
+            finally:
+                fired, _sites = seams.end_op()
         fkind = None
+        if arm is not None:
+            st["faults"]["K2"]["armed"] += 1
+            if fired:
+                st["faults"]["K2"]["fired"] += 1
+                agg_add(st["k2_sites"], fired)
+                fkind = "K2"
         if op.get("k1"):
             st["faults"]["K1"]["armed"] += 1
             if not out.ok:
@@ -535,13 +558,19 @@ class C05(Profile):
         return ev, viol
 
     # ------------------------------------------------------------------------------------------
-    def _apply_call(self, world, op, step, kind):
+    def _apply_call(self, world, op, step, kind, arm=None):
         st = world.stats
         agg_add(st["calls"], op["f"])
         base = {"property": "C05", "step": step, "after": kind, "fault": None}
         eph = []
-        # first call
-        out1 = capture(self._exec, world, op, eph)
+        # first call (an allocation failure may be injected into this one)
+        seams.begin_op(arm)
+        try:
+            out1 = capture(self._exec, world, op, eph)
+        finally:
+            fired, _sites = seams.end_op()
+        if fired:
+            base["fault"] = "K2"
         snaps = None
         # the ephemeral arrays were created inside _exec; to compare before/after we decode a pristine copy
         eph_ref = []
@@ -552,11 +581,14 @@ class C05(Profile):
         for i in range(n):
             st["buffer_checks"] += 1
             if not bytes_equal(eph[i], eph_ref[i]):
-                return out1, dict(base, invariant="I1:input-unchanged", cls=None, victim="inline-arg-%d" % i,
+                return out1, dict(base, invariant="I1:input-unchanged", cls=None, victim="inline-arg-%d" % i, _fired=fired,
                                   victim_kind="inline:" + (codec.dtype_code(eph_ref[i].dtype) if isinstance(eph_ref[i], np.ndarray)
                                                            else type(eph_ref[i]).__name__),
-                                  what="%s modified its argument array #%d in place" % (op["f"], i))
+                                  what="%s modified its argument array #%d in place%s" % (
+                                      op["f"], i, " (the call failed with an injected allocation error)" if fired else "")), fired
         agg_add(st["call_outcomes"], "ok" if out1.ok else out1.exc)
+        if fired:
+            return out1, None, fired       # a faulted call may fail; its result is not compared with anything
         # I5: the same call again gives the same outcome
         if not TABLE[op["f"]]["path"].startswith("io:"):
             out2 = capture(self._exec, world, op, [])
@@ -565,7 +597,7 @@ class C05(Profile):
             if why:
                 return out1, dict(base, invariant="I5:repeatable", cls=None, victim=op["f"], victim_kind="result",
                                   what="%s returned a different result when called again with the same arguments: %s"
-                                       % (op["f"], why), first=out1.brief(), second=out2.brief())
+                                       % (op["f"], why), first=out1.brief(), second=out2.brief()), None
         # I5 across the history: the same call on the same inputs (same buffers bit for bit, same object values,
         # dt and settings) issued again later -- typically after reads that filled caches -- gives the same outcome
         key = self._call_key(world, op)
@@ -583,8 +615,8 @@ class C05(Profile):
                     return out1, dict(base, invariant="I5:repeatable-later", cls=None, victim=op["f"], victim_kind="result",
                                       what="%s returned a different result than earlier in the history although its "
                                            "arguments (arrays, object values, dt, settings) are unchanged: %s" % (op["f"], why),
-                                      first=first.brief(), second=out1.brief())
-        return out1, None
+                                      first=first.brief(), second=out1.brief()), None
+        return out1, None, None
 
     def _call_key(self, world, op):
         parts = [op["f"]]
@@ -708,7 +740,7 @@ class C05(Profile):
         if op["op"] in ("new", "reset") and out.ok:
             o = world.objs[op["p"]]
             src = capture(lambda: np.asarray(self._res(world, op["src"])))
-            if src.ok and src.value.dtype.kind in "biuf":
+            if src.ok and src.value.dtype.kind in "biufc":
                 why = values_close(np.asarray(o.values), src.value, 0.0)
                 if why:
                     return dict(base, invariant="I4:takes-source-values", cls=_cls_name(o), victim=op["p"],
@@ -764,6 +796,7 @@ class C05(Profile):
             "analysis_calls": sum(fns_called.values()),
             "analysis_call_outcomes": agg.get("call_outcomes", {}),
             "fault_kinds": agg.get("faults", {}),
+            "k2_sites_fired": agg.get("k2_sites", {}),
             "operation_kinds": agg.get("ops", {}),
             "exception_outcomes": agg.get("outcomes", {}),
             "buffer_comparisons": agg.get("buffer_checks", 0),
@@ -810,6 +843,8 @@ class Gen(object):
                 op = None
             if op is not None:
                 self.emitted += 1
+                if not self.cfg.get("sweep"):
+                    self._maybe_k2(op)
                 return op
         if self.emitted >= self.cfg["length"]:
             return None
@@ -824,7 +859,13 @@ class Gen(object):
         if op is None:
             return None
         self.emitted += 1
+        self._maybe_k2(op)
         return op
+
+    def _maybe_k2(self, op):
+        if self.cfg.get("faults_on") and op["op"] in ("reset", "mut", "call", "kop", "new", "derive") and \
+                self.rng.random() < self.cfg.get("k2_blind", 0.0):
+            op["fault"] = {"k": "K2", "site": self.rng.choice([0, 0, 1, 1, 2, 3, 4, 6, 9])}
 
     def _plan_sweep(self, world):
         rng = self.rng
@@ -1047,6 +1088,12 @@ class Gen(object):
         if not objs:
             return None
         p = rng.choice(objs)
+        if self.cfg.get("faults_on") and rng.random() < self.cfg.get("k1_rate", 0.0):
+            # K1: a sized argument that cannot become a numeric array, of another length than the current record
+            n = len(world.objs[p].values)
+            k = rng.choice([2, 3, 5]) if n not in (2, 3, 5) else 7
+            raw = [[1.0, 2.0]] + [[3.0]] * (k - 1)
+            return {"op": "reset", "p": p, "src": {"raw": raw}, "k1": True}
         src = self._src(world)
         if "vals" in src and src["vals"] == p and rng.random() < 0.5:
             return None
@@ -1058,7 +1105,8 @@ class Gen(object):
         if not objs:
             return None
         # prefer objects that received a caller buffer or another object's array
-        pri = [o for o in objs if world.origin.get(o, (None, None, None))[1] in ("reset_values", "time_match")]
+        pri = [o for o in objs if world.origin.get(o, (None, None, None))[1] in ("reset_values", "time_match")
+               or world.origin.get(o, (None, None, None))[0] == "object"]
         p = rng.choice(pri) if (pri and rng.random() < 0.6) else rng.choice(objs)
         obj = world.objs[p]
         acc = _cls_name(obj) == "AccSignal"
@@ -1242,7 +1290,23 @@ class Gen(object):
         return [{"arr": nd(gen_record(self.rng, n))}, {"arr": nd(gen_record(self.rng, n))}]
 
     def arr_periods(self, zero=False):
-        return {"arr": nd(gen_periods(self.rng, allow_zero=zero))}
+        rng = self.rng
+        if rng.random() < 0.45:
+            # a small family of grids, some sharing count and end points (linear / logarithmic / jittered spacing)
+            lo, hi, k = rng.choice([(0.1, 2.0, 5), (0.05, 1.0, 6), (0.2, 3.0, 4)])
+            form = rng.choice(["lin", "log", "sq"])
+            if form == "lin":
+                g = [lo + (hi - lo) * i / (k - 1) for i in range(k)]
+            elif form == "log":
+                g = [lo * (hi / lo) ** (i / (k - 1)) for i in range(k)]
+            else:
+                g = [lo + (hi - lo) * (i / (k - 1)) ** 2 for i in range(k)]
+            g = [round(x, 6) for x in g]
+            g[0], g[-1] = lo, hi
+            if zero and rng.random() < 0.3:
+                g = [0.0] + g
+            return {"arr": nd(g)}
+        return {"arr": nd(gen_periods(rng, allow_zero=zero))}
 
     def arr_shifts(self, nonneg=False):
         k = self.rng.randint(1, 5)
@@ -1358,7 +1422,8 @@ class Gen(object):
             ob = world.objs[b]
             if _cls_name(ob) == "AccSignal" and _cls_name(oa) == "AccSignal" and ob.dt == oa.dt and \
                     len(ob.values) == len(oa.values):
-                return [{"obj": a}, {"obj": b}, round(self.rng.uniform(0, 180), 2)], {}
+                return [{"obj": a}, {"obj": b}, self.rng.choice([0.0, 0.0, 360.0, 90.0, 180.0, -360.0, 720.0] +
+                                                                [round(self.rng.uniform(0, 180), 2)] * 5)], {}
         raise _Skip()
 
     def rotated_args(self):
